@@ -660,7 +660,7 @@ Qed.
 Lemma wf_hunk_shift h d :
   wf_hunk h -> (0 <= rstart (oldr h) + d)%Z -> (0 <= rstart (newr h) + d)%Z -> wf_hunk (shift_hunk h d).
 Proof.
-  intros (A & B & (Co & Cc) & (Do & Dc) & E & F) Ho Hn. unfold wf_hunk, shift_hunk, wf_range. cbn [body oldr newr rstart rcount].
+  intros (A & B & (Co & Cc) & (Do & Dc) & E & F) Ho Hn. unfold wf_hunk, shift_hunk, shift_start, wf_range. cbn [body oldr newr rstart rcount].
   pose proof MAXZ_val as MX. pose proof MINZ_val as MN.
   repeat split; auto; unfold sadd, sat64; lia.
 Qed.
@@ -676,7 +676,8 @@ Proof.
   pose proof MAXZ_val as MX. pose proof MINZ_val as MN.
   assert (So : sadd (rstart (oldr h)) d = (rstart (oldr h) + d)%Z) by (unfold sadd; apply sat64_id; lia).
   assert (Sn : sadd (rstart (newr h)) d = (rstart (newr h) + d)%Z) by (unfold sadd; apply sat64_id; lia).
-  unfold wf_hunk_c, shift_hunk, wf_crange0, range_fits. cbn [body oldr newr rstart rcount]. rewrite So, Sn.
+  unfold wf_hunk_c, shift_hunk, shift_start, wf_crange0, range_fits. cbn [body oldr newr rstart rcount]. rewrite So, Sn.
+  rewrite !Z.max_r by lia.
   split; [exact A|]. split; [lia|]. split; [lia|]. split; [exact E|]. split; [exact F|]. split.
   - intros P. split; [apply G; exact P|lia].
   - intros P. split; [apply H; exact P|intros _; lia].
@@ -824,16 +825,20 @@ Proof.
 Qed.
 
 (* hunks that overlap: the first one removes five lines, the second one claims line 3 and is rejected; its starts are
-   moved by -5 and the reject file holds "@@ --2 +-2 @@", which this tool's parser does not take *)
+   moved by -5 and would be negative: the reject file holds "@@ -0 +0 @@" (a negative number is read back by nobody; before
+   the repair e07e11a of the program the file said "@@ --2 +-2 @@") and is read back *)
 Definition ex_g1 : hunk :=
   mkHunk (mkRange 1 5) (mkRange 0 0) [mkPL Del (xl "a"); mkPL Del (xl "b"); mkPL Del (xl "c"); mkPL Del (xl "d"); mkPL Del (xl "e")].
 Definition ex_g2 : hunk := mkHunk (mkRange 3 1) (mkRange 3 1) [mkPL Del (xl "X"); mkPL Add (xl "Y")].
 Definition ex_p_neg : patch := mkPatch FUnified OpChange [] [] (bs "f.txt") (bs "f.txt") [] [] 0 0 [ex_g1; ex_g2].
-Example negative_start_not_read_back :
+Example negative_start_stops_at_zero :
   exists r, apply_patch default_options ex_lines ex_p_neg = Ok r /\ r_failed r = 1 /\
-            r_rej r = bs "--- f.txt" ++ [10%N] ++ bs "+++ f.txt" ++ [10%N] ++ bs "@@ --2 +-2 @@" ++ [10%N] ++ bs "-X" ++ [10%N] ++ bs "+Y" ++ [10%N] /\
-            parse_patch (r_rej r) FUnknown (-1) = Throw ERuntime.
-Proof. eexists. split; [vm_compute; reflexivity|]. repeat split; vm_compute; reflexivity. Qed.
+            r_rej r = bs "--- f.txt" ++ [10%N] ++ bs "+++ f.txt" ++ [10%N] ++ bs "@@ -0 +0 @@" ++ [10%N] ++ bs "-X" ++ [10%N] ++ bs "+Y" ++ [10%N] /\
+            exists p', parse_patch (r_rej r) FUnknown (-1) = Ok p' /\ map body (hunks p') = [body ex_g2].
+Proof.
+  eexists. split; [vm_compute; reflexivity|]. split; [vm_compute; reflexivity|]. split; [vm_compute; reflexivity|].
+  eexists. split; vm_compute; reflexivity.
+Qed.
 End RejectFileExamples.
 
 (* with no -p or -p0 and names without a slash, the names read back are the names of the record *)
